@@ -24,65 +24,71 @@ def _enclosing_case(fn, node):
 
 
 def r1_symbol_provenance(ctx, m, me) -> None:
+    """path summaries of every exporter method: wherever a symbol is mangled, the name is read from the operation of the very
+    node it is mangled with (all locals and match captures are substituted by their definitions)"""
+    from ..rulekit import unold
+    from ..tmpl import T, tfind
     sites = 0
     for name, fn in me.methods.items():
-        for c in calls_in(fn, "_mangle_name"):
-            sites += 1
-            inst = f"ModelExport.{name}: _mangle_name({u(c.args[0])}, {u(c.args[1])})"
-            node_arg, name_arg = c.args[0], c.args[1]
-            # where does the name come from?
-            src_node = None
-            if isinstance(name_arg, ast.Attribute):        # op.f_name directly
-                opvar = u(name_arg.value)
-            else:
-                assigns = [s for s in ast.walk(fn) if isinstance(s, ast.Assign) and u(s.targets[0]) == u(name_arg)]
-                opvars = {u(s.value.value) for s in assigns if isinstance(s.value, ast.Attribute)}
-                opvar = opvars.pop() if len(opvars) == 1 else None
-            if opvar is not None:
-                # the op variable is bound by `case X() as <opvar>` of a match over <data>.op / self.hugr[K].op
-                for mt in [n for n in ast.walk(fn) if isinstance(n, ast.Match)]:
-                    binds = [cs for cs in mt.cases if isinstance(cs.pattern, ast.MatchAs) and cs.pattern.name == opvar]
-                    if not binds:
+        try:
+            ps = ctx.paths(f"{EXP}.ModelExport.{name}", bound=8192)
+        except Exception as e:      # too many paths: fall back to the canonical body
+            ps = []
+        seen = set()
+        for p in ps:
+            for x in list(p.effects) + ([p.value] if p.value is not None else []):
+                for c, e in tfind(x, T("_mangle_name(E_n, E_name)")):
+                    n_, nm_ = unold(e["E_n"]), unold(e["E_name"])
+                    key = (n_, nm_, getattr(c, "lineno", 0))
+                    if key in seen:
                         continue
-                    subj = mt.subject
-                    if isinstance(subj, ast.Attribute) and subj.attr == "op":
-                        base = subj.value
-                        if isinstance(base, ast.Name):
-                            for s in ast.walk(fn):
-                                if isinstance(s, ast.Assign) and u(s.targets[0]) == base.id and isinstance(s.value, ast.Subscript) and u(s.value.value) == "self.hugr":
-                                    src_node = u(s.value.slice)
-                        elif isinstance(base, ast.Subscript) and u(base.value) == "self.hugr":
-                            src_node = u(base.slice)
-            ctx.check(src_node is not None and u(node_arg) == src_node, "C12.R1", inst.split(":")[0] + ": symbol names the defining node", m.path, c.lineno,
-                      f"the name `{u(name_arg)}` is read from the operation of node `{src_node}` but mangled with node `{u(node_arg)}`: the symbol a call / load "
-                      "refers to is then not the symbol of any definition or declaration in the module", c,
-                      expected=f"_mangle_name({src_node}, {u(name_arg)})", found=u(c), detail=f"name and node both from {src_node}")
+                    seen.add(key)
+                    sites += 1
+                    ok = nm_ in (f"self.hugr[{n_}].op.f_name", f"self.hugr[{n_}].op.name", f"self.hugr[{n_}].op.alias" if False else "")
+                    ctx.check(ok, "C12.R1", f"ModelExport.{name}: symbol names the defining node", m.path, getattr(c, "lineno", fn.lineno),
+                              f"the name `{nm_[:80]}` is mangled with node `{n_[:80]}` but is not read from that node's operation: the symbol a call / load "
+                              "refers to is then not the symbol of any definition or declaration in the module", fn,
+                              expected=f"_mangle_name(N, self.hugr[N].op.f_name)", found=f"_mangle_name({n_[:60]}, {nm_[:60]})", detail="name and node from the same operation")
     ctx.stats["C12.R1 mangle sites"] = sites
 
 
 def r2_order_hints(ctx, m, me) -> None:
-    fn = me.methods.get("export_region_dfg")
-    if fn is None:
+    from ..rulekit import arg_of
+    from ..tmpl import T, tfind
+    fn_o = me.methods.get("export_region_dfg")
+    if fn_o is None:
         ctx.broken("anchor vanished: ModelExport.export_region_dfg")
-    acc = None
-    for s in ast.walk(fn):
-        if isinstance(s, ast.AugAssign) and "core.order_hint.order" in u(s.value):
-            acc = u(s.target)
-        if isinstance(s, ast.Expr) and isinstance(s.value, ast.Call) and call_name(s.value) in ("append", "extend") and "core.order_hint.order" in u(s.value):
-            acc = u(s.value.func.value)
-    if acc is None:
-        ctx.fail("C12.R2", "export_region_dfg: order hints collected", m.path, fn.lineno, "no core.order_hint.order terms are produced for the region", fn)
+    fn = ctx.cfn(f"{EXP}.ModelExport.export_region_dfg")
+    hint = "model.Apply('core.order_hint.order', [model.Literal(L_child.idx), model.Literal(c0.idx)])"
+    hits = tfind(fn, T(f"L_acc += [{hint} for c0 in self.hugr.outgoing_order_links(L_child) if not isinstance(self.hugr[c0].op, Output)]")) or \
+        tfind(fn, T(f"L_acc.extend([{hint} for c0 in self.hugr.outgoing_order_links(L_child) if not isinstance(self.hugr[c0].op, Output)])")) or \
+        tfind(fn, T(f"L_acc.extend(({hint} for c0 in self.hugr.outgoing_order_links(L_child) if not isinstance(self.hugr[c0].op, Output)))"))
+    any_hint = [n for n in ast.walk(fn) if isinstance(n, ast.Constant) and n.value == "core.order_hint.order"]
+    if not any_hint:
+        ctx.fail("C12.R2", "export_region_dfg: order hints collected", m.path, fn_o.lineno, "no core.order_hint.order terms are produced for the region", fn_o)
         return
+    acc = hits[0][1]["L_acc"] if hits else None
+    if acc is None:
+        # some other accumulation of hints: find what the hint term is added to
+        for s_ in ast.walk(fn):
+            if isinstance(s_, ast.AugAssign) and "core.order_hint.order" in u(s_.value):
+                acc = u(s_.target)
+            if isinstance(s_, ast.Expr) and isinstance(s_.value, ast.Call) and call_name(s_.value) in ("append", "extend") and "core.order_hint.order" in u(s_.value):
+                acc = u(s_.value.func.value)
     regions = [c for c in calls_in(fn) if u(c.func) == "model.Region"]
-    ok = len(regions) == 1 and kwarg(regions[0], "meta") is not None and u(kwarg(regions[0], "meta")) == acc
-    ctx.check(ok, "C12.R2", "export_region_dfg: order hints reach the region", m.path, regions[0].lineno if regions else fn.lineno,
+    rm = arg_of(ctx, regions[0], "meta", m, me) if len(regions) == 1 else None
+    ok = len(regions) == 1 and rm is not None and acc is not None and u(rm) == acc
+    ctx.check(ok, "C12.R2", "export_region_dfg: order hints reach the region", m.path, regions[0].lineno if regions else fn_o.lineno,
               f"the list `{acc}` collects the core.order_hint.order terms but never reaches model.Region(meta=...): every state-order edge between "
-              "siblings is lost in the export", regions[0] if regions else fn, expected=f"meta={acc}", found=u(kwarg(regions[0], "meta")) if regions else "")
-    comp = [n for n in ast.walk(fn) if isinstance(n, ast.ListComp) and "core.order_hint.order" in u(n.elt)]
-    ok = len(comp) == 1 and u(comp[0].generators[0].iter) == "self.hugr.outgoing_order_links(child)" and [u(i) for i in comp[0].generators[0].ifs] == [
-        "not isinstance(self.hugr[successor].op, Output)"] and "model.Literal(child.idx), model.Literal(successor.idx)" in u(comp[0].elt)
-    ctx.check(ok, "C12.R2", "export_region_dfg: one hint per order edge between non-boundary siblings", m.path, fn.lineno,
-              "hints are (child key, successor key) for every outgoing order link whose target is not the Output node", fn)
+              "siblings is lost in the export", regions[0] if regions else fn_o, expected=f"meta={acc}", found=u(rm) if rm is not None else "")
+    # the hinted child is the child being exported in the loop over the region's children
+    ok = bool(hits)
+    if ok:
+        ch = hits[0][1]["L_child"]
+        loops = [n for n in ast.walk(fn) if isinstance(n, ast.For) and hits[0][0] in list(ast.walk(n))]
+        ok = bool(loops) and u(loops[0].target) == ch
+    ctx.check(ok, "C12.R2", "export_region_dfg: one hint per order edge between non-boundary siblings", m.path, fn_o.lineno,
+              "hints are (child key, successor key) for every outgoing order link whose target is not the Output node", fn_o)
 
 
 def r3_port_lists(ctx, m, me) -> None:
@@ -103,28 +109,50 @@ def r3_port_lists(ctx, m, me) -> None:
     uses_helper = helper is not None and any(call_name(c) == "_num_model_ports" for c in calls_in(en))
     if helper is None:
         return
+    hp = helper.args.args[0].arg
     arms = {}
-    for n in ast.walk(helper):
-        if isinstance(n, ast.match_case):
-            key = u(n.pattern).split("(")[0]
-            rets = [r for r in ast.walk(n) if isinstance(r, ast.Return)]
-            loc = {u(s.targets[0]): u(s.value) for s in n.body if isinstance(s, ast.Assign)}
-            txt = u(rets[0].value) if rets else ""
-            for k, v in loc.items():
-                txt = txt.replace(k + ".", v + ".")
-            arms[key] = txt
-    want = {"DataflowBlock": "(1, len(op.sum_ty.variant_rows))", "Call": "(len(op.instantiation.input), len(op.instantiation.output))",
-            "DataflowOp": "(len(op.outer_signature().input), len(op.outer_signature().output))", "_": "(0, 0)"}
+    order_ok = True
+    for p in ctx.paths(f"{EXP}._num_model_ports"):
+        taken = [u(t.args[1]) for t, k in p.tests if k and isinstance(t, ast.Call) and u(t.func) == "isinstance" and u(t.args[0]) == hp]
+        refused = {x for t, k in p.tests if not k and isinstance(t, ast.Call) and u(t.func) == "isinstance" and u(t.args[0]) == hp for x in u(t.args[1]).split(" | ")}
+        key = taken[-1] if taken else "_"
+        arms[key] = p.value_text() if p.kind == "return" else f"<{p.kind}>"
+        if key == "DataflowOp":
+            # the generic arm only applies to ops that are neither basic blocks nor calls
+            order_ok = order_ok and {"DataflowBlock", "Call"} <= refused
+    want = {"DataflowBlock": f"(1, len({hp}.sum_ty.variant_rows))", "Call": f"(len({hp}.instantiation.input), len({hp}.instantiation.output))",
+            "DataflowOp": f"(len({hp}.outer_signature().input), len({hp}.outer_signature().output))", "_": "(0, 0)"}
     ctx.check(uses_helper and arms == want, "C12.R3", "_num_model_ports: table", m.path, helper.lineno,
               "model nodes list the value ports of the signature (control ports for basic blocks, the instantiated signature for calls, none for non-dataflow ops)",
               helper, expected=str(want), found=str(arms))
-    order = [u(c.pattern).split("(")[0] for n in ast.walk(helper) if isinstance(n, ast.Match) for c in n.cases]
-    ctx.check(order.index("DataflowOp") > order.index("DataflowBlock") and order.index("DataflowOp") > order.index("Call") if "DataflowOp" in order else False, "C12.R3",
+    ctx.check(order_ok and "DataflowOp" in arms, "C12.R3",
               "_num_model_ports: specific arms before DataflowOp", m.path, helper.lineno, "", helper)
-    rd = me.methods["export_region_dfg"]
-    src = u(rd)
-    ok = "self.link_name(OutPort(child, i)) for i in range(len(op.types))" in src and "self.link_name(InPort(child, i)) for i in range(len(op.types))" in src
-    ctx.check(ok, "C12.R3", "export_region_dfg: sources/targets from the Input/Output rows", m.path, rd.lineno, "", rd)
+    from ..paths import summaries
+    from ..rulekit import arg_of
+    rd_o = me.methods["export_region_dfg"]
+    rd = ctx.cfn(f"{EXP}.ModelExport.export_region_dfg", subst=False)
+    regions = [c for c in calls_in(rd) if u(c.func) == "model.Region"]
+    ok = len(regions) == 1
+    if ok:
+        sv, tv = arg_of(ctx, regions[0], "sources", m, me), arg_of(ctx, regions[0], "targets", m, me)
+        loops = [n for n in rd.body if isinstance(n, ast.For) and u(n.iter).endswith(".children")]
+        ok = sv is not None and tv is not None and isinstance(sv, ast.Name) and isinstance(tv, ast.Name) and len(loops) == 1 and isinstance(loops[0].target, ast.Name)
+    if ok:
+        ch = loops[0].target.id
+        pre = [s_ for s_ in rd.body[: rd.body.index(loops[0])] if isinstance(s_, (ast.Assign, ast.AnnAssign)) and u(s_.targets[0] if isinstance(s_, ast.Assign) else s_.target) not in (sv.id, tv.id)]
+        seen = set()
+        for p in summaries(pre + loops[0].body):
+            cls = [u(t.args[1]) for t, k in p.tests if k and isinstance(t, ast.Call) and u(t.func) == "isinstance" and u(t.args[0]) == f"self.hugr[{ch}].op"]
+            if cls and cls[-1] == "Input":
+                seen.add("Input")
+                ok = ok and sv.id in p.env and u(p.env[sv.id]) == f"[self.link_name(OutPort({ch}, c0)) for c0 in range(len(self.hugr[{ch}].op.types))]" and tv.id not in p.env
+            elif cls and cls[-1] == "Output":
+                seen.add("Output")
+                ok = ok and tv.id in p.env and u(p.env[tv.id]) == f"[self.link_name(InPort({ch}, c0)) for c0 in range(len(self.hugr[{ch}].op.types))]" and sv.id not in p.env
+            else:
+                ok = ok and sv.id not in p.env and tv.id not in p.env
+        ok = ok and seen == {"Input", "Output"}
+    ctx.check(ok, "C12.R3", "export_region_dfg: sources/targets from the Input/Output rows", m.path, rd_o.lineno, "", rd_o)
 
 
 def r4_cfg_boundary(ctx, m, me) -> None:
@@ -277,9 +305,23 @@ def r7_plumbing(ctx, m, me) -> None:
     ctx.check(ok, "C12.R7", "ModelExport.link_name: one fresh name per component", m.path, ln.lineno, "", ln)
     uf = ctx.program.module(EXP).classes.get("_UnionFind")
     un = uf.methods.get("union")
-    src = u(un)
-    ok = "self.parents[b] = a" in src and "if a == b" in src and "a = self[a]" in src and "b = self[b]" in src
-    ctx.check(ok, "C12.R7", "_UnionFind.union", m.path, un.lineno, "", un)
+    a_, b_ = un.args.args[1].arg, un.args.args[2].arg
+    ps = ctx.paths(f"{EXP}._UnionFind.union")
+    ok = bool(ps)
+    seen = set()
+    for p in ps:
+        same = [k for t, k in p.tests if u(t) in (f"self[{a_}] == self[{b_}]", f"self[{b_}] == self[{a_}]")]
+        stores = [e for e in p.effects if isinstance(e, ast.Assign) and isinstance(e.targets[0], ast.Subscript) and u(e.targets[0].value) == "self.parents"]
+        if not same:
+            ok = False
+        elif same[0]:
+            seen.add("same")
+            ok = ok and not stores
+        else:
+            seen.add("merge")
+            ok = ok and len(stores) == 1 and {u(stores[0].targets[0].slice), u(stores[0].value)} == {f"self[{a_}]", f"self[{b_}]"}
+    ctx.check(ok and seen == {"same", "merge"}, "C12.R7", "_UnionFind.union", m.path, un.lineno, "the roots of the two elements are linked unless they already coincide", un,
+              found="; ".join(p.describe() + " :: " + " | ".join(p.effect_texts()) for p in ps)[:300])
     en = me.methods["export_node"]
     loops = [n for n in real_body(en) if isinstance(n, ast.For)]
     ok = len(loops) == 1 and u(loops[0].iter) == "node_data.metadata.items()" and "compat.meta_json" in u(loops[0]) and "meta.append(" in u(loops[0]) \
@@ -297,9 +339,35 @@ def r7_plumbing(ctx, m, me) -> None:
     ok = len(key) == 1 and "core.order_hint.key" in u(key[0]) and "model.Literal(node.idx)" in u(key[0])
     ctx.check(ok, "C12.R7", "export_node: order key = node index", m.path, en.lineno, "both endpoints of a hint must carry matching keys (their node indices)", en)
     nk = ctx.program.module(EXP).functions.get("_needs_order_key")
-    src = u(nk) if nk else ""
-    ok = nk is not None and "for succ in hugr.outgoing_order_links(node)" in src and "not isinstance(succ_op, Output)" in src \
-        and "for pred in hugr.incoming_order_links(node)" in src and "not isinstance(pred_op, Input)" in src
+    ok = nk is not None
+    if ok:
+        h_, n_ = nk.args.args[0].arg, nk.args.args[1].arg
+        ps = ctx.paths(f"{EXP}._needs_order_key")
+        for links, boundary in (("outgoing_order_links", "Output"), ("incoming_order_links", "Input")):
+            it = f"{h_}.{links}({n_})"
+            anyform = f"any((not isinstance({h_}[c0].op, {boundary}) for c0 in {it}))"
+            good = False
+            # loop form: every neighbour is examined; the first one that is not the boundary node answers True
+            cnk = ctx.cfn(f"{EXP}._needs_order_key", subst=False)
+            for lp in [x for x in ast.walk(cnk) if isinstance(x, ast.For) and u(x.iter) == it and isinstance(x.target, ast.Name)]:
+                from ..paths import summaries
+                v = lp.target.id
+                bps = summaries(lp.body)
+                good = bool(bps)
+                for q in bps:
+                    bt = [k for t, k in q.tests if u(t) == f"isinstance({h_}[{v}].op, {boundary})"]
+                    if not bt or len(q.tests) != 1:
+                        good = False
+                    elif bt[0]:
+                        good = good and q.kind in ("fall", "continue") and not q.effects
+                    else:
+                        good = good and q.kind == "return" and q.value_text() == "True"
+            for p in ps:
+                # any() form
+                if (p.kind == "return" and p.value_text() == anyform) or (p.kind == "return" and p.value_text() == "True" and p.has_test(anyform, True) is not None):
+                    good = True
+            ok = ok and good
+        ok = ok and any(p.kind == "return" and p.value_text() in ("False",) or p.kind == "return" and p.value_text().startswith("any(") for p in ps)
     ctx.check(ok, "C12.R7", "_needs_order_key: excludes exactly Input/Output endpoints", m.path, nk.lineno if nk else 1, "", nk)
 
 
